@@ -5,12 +5,13 @@ CONSTANTS
  Lats = {0,1,3}
  MaxTick = 3
  MaxOps = 6
- Kinds <- Both
+ Kinds <- None
  DevRateNonMonotone = FALSE
  DevNoTruncOnQuery = FALSE
  DevNoCap = TRUE
  DevHealthNotChecked <- None
  DevDegradedPasses = FALSE
+ DevGateHoisted = FALSE
 INIT Init
 NEXT Next
 INVARIANTS C25_FunctionOfWindow C25_Monotone C25_Gate
